@@ -93,11 +93,14 @@ func judge(c Case, w *vkit.W) {
 	fits := func(s string) bool { return c.Limit == 0 || len(s) <= c.Limit }
 	roundTrip := func(path, text string, flagsSub int) {
 		n := roman.Number(c.N)
+		if len(text) > 1<<20 { // megabyte numerals: the detail texts name the number instead of quoting the numeral
+			path = fmt.Sprintf("%s [numeral of %d, %d bytes]", path, c.N, len(text))
+		}
 		if fits(text) {
 			if err := roman.Valid(text, 0); err != nil {
 				w.Fail(c, "valid-rejects-formatted-numeral", fmt.Sprintf("%s: Valid(%q) = %v (n=%d flags=%#x)", path, text, err, c.N, flagsSub))
 			}
-			if c.N%16 == 5 || c.N > 129000 { // the other instantiations of the validity check and of the parser (constraint: ~string | ~[]byte)
+			if (c.N%16 == 5 || c.N > 129000) && c.N < 1000000 { // the other instantiations of the validity check and of the parser (constraint: ~string | ~[]byte)
 				if err := roman.Valid(w.Scratch(text), 0); err != nil {
 					w.Fail(c, "valid-rejects-formatted-numeral", fmt.Sprintf("%s: Valid[[]byte](%q) = %v (n=%d flags=%#x)", path, text, err, c.N, flagsSub))
 				}
@@ -352,6 +355,21 @@ func TestCheck(t *testing.T) {
 			})
 			restore()
 		}
+	})
+
+	// Phase A3: numbers above 2^32 x 1000 (numerals of more than four million symbols), limit disabled.
+	r.Phase("A3: numbers whose thousands exceed 2^32 (4.3 MB numerals), limit disabled: formatter, Valid, parser, UnmarshalText", func() {
+		defer configure(0, 0)()
+		giants := []Case{{N: 4294968444, Flags: subLower, Path: "formatter"}}
+		if r.Thorough() {
+			giants = append(giants, Case{N: 4294967999, Flags: subLong, Path: "formatter"}, Case{N: 8589935000, Flags: 0, Path: "formatter"})
+		}
+		r.Parallel(int64(len(giants)), 1, func(w *vkit.W, lo, hi int64) {
+			for i := lo; i < hi; i++ {
+				judge(giants[i], w)
+				w.Eval(true)
+			}
+		})
 	})
 
 	r.Phase("B3: formatter and methods again right after custom package-level Formatter/Parser functions were installed, used and removed", func() {
